@@ -684,9 +684,10 @@ def escape_table(run, ctx):
         if not th.endswith("(end,%s)" % want):
             run.violation(fam, label, "value/" + ch, H.where(nd), "\\%s must parse to %s; found %s" % (ch, want, th[-160:]))
     for want, what in (('"[0-9A-Fa-f]"', "\\h"), ('"[^0-9A-Fa-f]"', "\\H"), ('b\'e\' => "\\x1b"', "\\e"), ('b\'a\' => "\\x07"', "\\a"), ('b\'f\' => "\\x0c"', "\\f"),
-                       ('b\'n\' => "\\n"', "\\n"), ('b\'r\' => "\\r"', "\\r"), ('b\'t\' => "\\t"', "\\t"), ('b\'v\' => "\\x0b"', "\\v")):
+                       ('b\'n\' => "\\n"', "\\n"), ('b\'r\' => "\\r"', "\\r"), ('b\'t\' => "\\t"', "\\t"), ('b\'v\' => "\\x0b"', "\\v"),
+                       ('b\'b\' => "\\x08"', "\\b inside a class (backspace; outside a class it is the word boundary)")):
         n += 1
-        if want not in c and want.replace("\\n", "\n").replace("\\r", "\r").replace("\\t", "\t").replace("\\x1b", "\x1b").replace("\\x07", "\x07").replace("\\x0c", "\x0c").replace("\\x0b", "\x0b") not in c:
+        if want not in c and want.replace("\\n", "\n").replace("\\r", "\r").replace("\\t", "\t").replace("\\x1b", "\x1b").replace("\\x07", "\x07").replace("\\x0c", "\x0c").replace("\\x0b", "\x0b").replace("\\x08", "\x08") not in c:
             run.violation(fam, label, "row/" + what, H.where(fn), "%s must expand as documented (%s); row not found" % (what, want))
     for want, what in (("return self.parse_hex(end,2)", "\\x"), ("return self.parse_hex(end,4)", "\\u"), ("return self.parse_hex(end,8)", "\\U")):
         n += 1
